@@ -228,8 +228,10 @@ JsonUnmarshalVerdict(e) ==
        IF ps.err = "range" THEN B2S(e.err # "none" /\ e.r = e.prev)
        ELSE IF e.err # "none" THEN "reject:number-refused"
        ELSE Agrees(ps.ex, Decode(e.r), mode)
-  ELSE \* not a JSON number: an error, or (direct call only) the value Parse gives for that text, never another one
+  ELSE \* not a JSON number: an error, or (direct call only) the value Parse gives for that text, never another one;
+       \* the digit separator '_' is an extension of Parse's literal syntax that JSON does not have: always an error
        IF e.err # "none" THEN B2S(e.r = e.prev)
+       ELSE IF \E i \in 1..Len(e.s) : e.s[i] = 95 THEN "reject:separator-accepted-in-JSON"
        ELSE LET ps == ParseSem(e.s, mode) IN
             IF ps.err = "none" /\ ps.val.k = "fin" /\ Agrees(ps.ex, Decode(e.r), mode) \in OkSet THEN "ok"
             ELSE "reject:non-number-accepted"
